@@ -648,6 +648,8 @@ func C02(c *Ctx) {
 	c.R.Rule("C02-R3", "E6", "extra members never consulted", 1)
 	c.R.Rule("C02-R4", "E5", "left-over members merged under fresh indexes", 1)
 	c.R.Rule("C02-R5", "E5+E3", "bindings private to each alternative", 2)
+	c.shareRule("C03", "C03-R1", "C02-R9", "the matcher keeps nothing between calls (a memo answers for another pattern)")
+	c.shareRule("C09", "C09-R1", "C02-R10", "values the engine itself binds are plain JSON values, which is all the matcher recognises")
 	c.R.Rule("C02-R8", "E3", "matching starts from a non-nil copy of the given bindings (nil is the internal no-match sentinel)", 2)
 	c.R.Rule("C02-R7", "E5", "a message member's presence is decided by the lookup's ok flag (null is a value)", 1)
 	c.R.Rule("C02-R6", "E1", "matching leaves the pattern and the message intact (a modified pattern loses solutions on its next use)", 8)
